@@ -839,7 +839,7 @@ Definition container_wf (c : xcontainer) : Prop :=
   xk_short c <> Some "" /\ xk_long c <> Some "" /\
   match xk_base c with
   | None => xk_criteria c = []
-  | Some _ => xk_criteria c <> [] /\ criteria_wf true (xk_criteria c)
+  | Some _ => xk_criteria c = [] \/ criteria_wf true (xk_criteria c)      (* an unconditional child, or criteria in normal form *)
   end.
 Definition wr_entry (e : xentry) : velem :=
   match e with XEP n => E U "ParameterRefEntry" [("parameterRef", AS n)] [] | XEC n => E U "ContainerRefEntry" [("containerRef", AS n)] [] end.
@@ -865,7 +865,13 @@ Proof.
     rewrite F, E_kids. apply rt_entries. }
   unfold nonempty in H.
   destruct base as [b|].
-  - destruct Wb as [Wne Wk]. destruct crit as [|k ks]; [congruence|]. injection H as <-.
+  - destruct crit as [|k ks].
+    { (* unconditional child: <BaseContainer containerRef=b/> with no RestrictionCriteria *)
+      injection H as <-. unfold read_container.
+      destruct short as [s0|]; [destruct (String.eqb_spec s0 "") as [->|Hs]; [congruence|]|];
+        (destruct long as [l|]; [destruct (String.eqb_spec l "") as [->|Hl]; [congruence|]|]); unfold optattr; cbn [app];
+        fstep; step; fold wr_entry; fold rd_entry; fstep; step; fold wr_entry; rewrite rt_entries; cbn [bind]; rewrite concat_singletons; reflexivity. }
+    destruct Wb as [Wne|Wk]; [discriminate|]. injection H as <-.
     pose proof (rt_match U true true "RestrictionCriteria" [] (k :: ks) Wk) as R. unfold write_criteria in R. cbn [map] in R.
     unfold read_container.
     destruct short as [s0|]; [destruct (String.eqb_spec s0 "") as [->|Hs]; [congruence|]|];
